@@ -52,7 +52,7 @@ def _ref_to_chr(start, strand, cigar, n):
 
 
 def make_db(name, seqlen, seed, regions, exons, builds, alleles, pseudo=None,
-            cn_regions=None, tandems=None):
+            cn_regions=None, tandems=None, plant=()):
     """
     regions: ordered {name: (ref_start, ref_end)} 1-based half-open [s, e) RefSeq coords
              (exons named e1.. ; introns are filled by aldy);
@@ -60,6 +60,8 @@ def make_db(name, seqlen, seed, regions, exons, builds, alleles, pseudo=None,
              offset of the pseudogene copy relative to the gene copy (None: no pseudogene)
     """
     seq = _seq(seqlen, seed)
+    for pos, motif in plant:  # tandem repeats written into the sequence (1-based)
+        seq = seq[:pos - 1] + motif + seq[pos - 1 + len(motif):]
     y = {
         "name": name, "version": "gen-1", "generated": "2026-09-26",
         "alleles": alleles,
@@ -179,6 +181,20 @@ def gen_yaml(which):
                     {"hg19": ("5", 8001, "+", "M120", -2000),
                      "hg38": ("5", 3001, "-", "M120", 2000)},
                     al, pseudo="GDP", cn_regions=["e1", "i1", "e2", "i2", "e3"])
+    elif which == "GE":
+        # tandem repeats with catalogued multi-base indels inside them (written at the
+        # 3' end of the repeat, as databases do), + strand in hg19, - strand in hg38
+        regions = {"up": (1, 11), "e1": (11, 51), "e2": (61, 101), "down": (101, 121)}
+        al = dict([
+            _A("GE*1.001", "GE*1", []),
+            _A("GE*2.001", "GE*2", [[31, "insCAG", "rs1", "frameshift"]]),  # (CAG)4 20-31
+            _A("GE*3.001", "GE*3", [[76, "delTC", "rs2", "frameshift"]]),   # (TC)4 70-77
+            _A("GE*4.001", "GE*4", [[90, "SNP1", "rs3", "functional"]]),
+        ])
+        y = make_db("GE", 120, 71, regions, [(11, 51), (61, 101)],
+                    {"hg19": ("7", 2001, "+", "M120", None),
+                     "hg38": ("7", 6001, "-", "M120", None)},
+                    al, plant=[(19, "T" + "CAG" * 4 + "T"), (69, "A" + "TC" * 4 + "G")])
     else:
         raise KeyError(which)
     # resolve symbolic op names against the generated sequence
@@ -216,7 +232,7 @@ def load(which, genome=None):
     """which: 'toy', 'GA'.., or a shipped gene name (lower case)."""
     if which == "toy":
         return Gene(script_path("aldy.tests.resources/toy.yml"), genome=genome)
-    if which in ("GA", "GB", "GC", "GD"):
+    if which in ("GA", "GB", "GC", "GD", "GE"):
         return Gene(None, name=which, yml=gen_yaml(which), genome=genome)
     return Gene(script_path(f"aldy.resources.genes/{which}.yml"), genome=genome)
 
